@@ -1106,9 +1106,15 @@ class Interp:
                             recv = Obj(t)
                 results: list[tuple[AV, State]] = []
                 ok = True
+                rkey: str | None = None
+                if isinstance(fx, ast.Attribute):
+                    if isinstance(fx.value, ast.Name) and fx.value.id in ("self",):
+                        rkey = fx.value.id
+                    elif isinstance(fx.value, ast.Call) and unparse(fx.value.func) == "super":
+                        rkey = fn.self_name if fn.kind not in ("classmethod", "staticmethod") else None
                 for f in cands:
                     self._check_pre(f, c, args, kws, st, fn, depth)
-                    outs = self.inline(f, args, kws, st, fn, depth, recv, c, [a for a in c.args if not isinstance(a, ast.Starred)], {k.arg: k.value for k in c.keywords if k.arg})
+                    outs = self.inline(f, args, kws, st, fn, depth, recv, c, [a for a in c.args if not isinstance(a, ast.Starred)], {k.arg: k.value for k in c.keywords if k.arg}, recv_key=rkey)
                     if outs is None:
                         ok = False
                         break
@@ -1222,7 +1228,7 @@ class Interp:
         return out
 
     def inline(self, f: Func, args: list[AV], kws: dict[str, AV], st: State, fn: Func, depth: int, recv: AV | None, node: ast.AST,
-               arg_exprs: list[ast.expr], kw_exprs: dict[str, ast.expr], want_self: bool = False) -> list[tuple[AV, State]] | None:
+               arg_exprs: list[ast.expr], kw_exprs: dict[str, ast.expr], want_self: bool = False, recv_key: str | None = None) -> list[tuple[AV, State]] | None:
         """Inline f in the caller's context. Returns None if not inlined (too deep / opaque / recursive / too big)."""
         if depth >= self.max_depth or f.qual in self.C.opaque or id(f) in self._inline_stack or isinstance(f.node, ast.Lambda) and False:
             return None
@@ -1297,6 +1303,13 @@ class Interp:
                     elif cur is None or isinstance(cur, Top):
                         if pv.lo != -INF or pv.hi != INF:
                             s2 = s2.refine(k, pv)
+            if recv_key is not None and sn is not None and f.kind not in ("classmethod", "staticmethod"):
+                # stores the callee made on its receiver are stores on the caller's receiver object
+                pref = sn + "."
+                for k2, v2 in fin.d.items():
+                    if k2.startswith(pref) and "." not in k2[len(pref):] and not isinstance(v2, SymV):
+                        if s2.get(recv_key + "." + k2[len(pref):]) != v2:
+                            s2 = s2.refine(recv_key + "." + k2[len(pref):], v2)
             if want_self and sn is not None:
                 sv = fin.get(sn)
                 v = self._materialize(sn, sv if isinstance(sv, Obj) else Obj(f.cls.name if f.cls else "object"), fin)
